@@ -137,3 +137,32 @@ func (b *Baton) wait() (kind, id int, ok bool) {
 	}
 	return int(m[0]), int(m[1]), true
 }
+
+type pollFd struct {
+	fd      int32
+	events  int16
+	revents int16
+}
+
+// waitTimeout is wait with a deadline (raw poll(2), no happens-before edge).
+// timedOut means the released client neither yielded nor finished: it is
+// blocked on something a parked client holds (a lock taken by code under
+// test), and the controller has to let somebody else run.
+func (b *Baton) waitTimeout(ms int) (kind, id int, ok, timedOut bool) {
+	pfd := pollFd{fd: int32(b.ctrl.r), events: 1 /* POLLIN */}
+	for {
+		n, _, e := syscall.Syscall(syscall.SYS_POLL, uintptr(unsafe.Pointer(&pfd)), 1, uintptr(ms))
+		if e == syscall.EINTR {
+			continue
+		}
+		if e != 0 {
+			return 0, 0, false, false
+		}
+		if n == 0 {
+			return 0, 0, true, true
+		}
+		break
+	}
+	kind, id, ok = b.wait()
+	return kind, id, ok, false
+}
